@@ -18,7 +18,8 @@ TRUSTED = pcommon.TRUSTED_PARSE + [
     "classes outside the model (Regex, QuotedString, CloseMatch, Dict, IndentedBlock, helpers) are exercised by the oracle only"]
 
 BOUNDARY = ["", " ", "\n", "\t", "a", "ab", " a", "a ", "a\n", "\na", "a\tb", "\t\ta", "é", "aé", "a b", "ab\n\nab", "(", "(a", "a,",
-            "a,b", ",", "  ", "\r\n", "a\r\nb", "ab ab ab", "aaaa", "'a", "\"a\"", "1", "12 3", "-1.5e3", "0x1F", "a1_b"]
+            "a,b", ",", "  ", "\r\n", "a\r\nb", "ab ab ab", "aaaa", "'a", "\"a\"", "1", "12 3", "-1.5e3", "0x1F", "a1_b",
+            "\u017f", "\u0130", "\u212a", "i\u017f", "\u017ft", "\u0131"]
 
 
 def zoo():
@@ -58,7 +59,11 @@ def zoo():
         ("DelimitedList", lambda: pp.DelimitedList(W("ab"))), ("DelimitedList.trail", lambda: pp.DelimitedList(W("ab"), allow_trailing_delim=True)),
         ("AtStringStart", lambda: pp.AtStringStart(W("ab"))), ("AtLineStart", lambda: pp.AtLineStart(W("ab"))),
         ("Forward", lambda: _fwd()), ("Forward.empty", lambda: pp.Forward()), ("IndentedBlock", lambda: W("ab") + pp.IndentedBlock(W("ab"))),
-        ("one_of", lambda: pp.one_of("a ab b")), ("one_of.caseless", lambda: pp.one_of("a AB", caseless=True)), ("nested_expr", lambda: pp.nested_expr()),
+        ("one_of", lambda: pp.one_of("a ab b")), ("one_of.caseless", lambda: pp.one_of("a AB", caseless=True)),
+        # characters that re.IGNORECASE equates with an ASCII letter while str.lower()/upper() do not (F-06c)
+        ("one_of.caseless.fold", lambda: pp.one_of("s k i st", caseless=True)), ("one_of.caseless.kw", lambda: pp.one_of("s k i", caseless=True, as_keyword=True)),
+        ("CaselessLiteral.fold", lambda: pp.CaselessLiteral("s")), ("CaselessKeyword.fold", lambda: pp.CaselessKeyword("is")),
+        ("nested_expr", lambda: pp.nested_expr()),
         ("counted_array", lambda: pp.counted_array(W("ab"))), ("infix", lambda: pp.infix_notation(W("ab"), [(",", 2, pp.OpAssoc.LEFT)])),
         ("original_text_for", lambda: pp.original_text_for(W("ab") + ",")), ("ungroup", lambda: pp.ungroup(pp.Group(W("ab")))),
         ("match_previous_literal", lambda: _mpl()), ("dict_of", lambda: pp.dict_of(W("a"), W("b"))), ("make_html_tags", lambda: pp.make_html_tags("a")[0]),
